@@ -35,7 +35,7 @@ RULE = ('file: 1..4 logical files; logical file: FILE-HEADER (3 in 4 in the conv
         'enumerates all 32 x 32 template x object characteristic subsets of one attribute for four representation codes.  '
         'Non-trivial: some table has >= 2 objects and uses an absent attribute, trailing omission, an overriding count or code, or '
         'an invariant attribute.  Distinct = distinct case.')
-ASSUMPTIONS = ['object names unique within a set, attribute labels unique within a template (the duplicate strategies are configuration, not under test)',
+ASSUMPTIONS = ['object names unique within a set (except in the part repeated-object-names, where only what every duplicate strategy but RAISE guarantees is judged), attribute labels unique within a template (the duplicate strategies are configuration, not under test)',
                'at most one CHANNEL and one FRAME set per logical file, and only in well-formed pairs (LogicalFile documents multiple CHANNEL sets as unsupported)',
                'an object that overrides the representation code (or sets a count of 0) on an attribute whose template carries a value also carries a value (otherwise the cell is ambiguous); a count alone may be overridden without a value: the cell states the object count and the template value',
                'a cell of count 0 may present its value as an empty list or as no value; a set without name may present the name as empty or as None',
@@ -481,8 +481,85 @@ def check_extra_code(case, cc):
         cc.dev('table==encoded', 'cell-code-or-count', 'code %d: cell presented with code %r count %r' % (code, attr.rep_code, attr.count))
 
 
+# ---------------------------------------------------------------------------------------------------------
+# Part repeated-object-names: a set that writes an object name more than once (a producer updating a parameter).  Which
+# occurrence the table shows is the package's configuration (replace by default) and is not judged; what is judged: an
+# object written once is in the table with its value, a name written several times has one row holding the value of one of
+# its occurrences, nothing else is in the table.
+# ---------------------------------------------------------------------------------------------------------
+NAME_POOL = [(1, 0, b'P1'), (1, 0, b'P2'), (1, 0, b'P3'), (2, 0, b'P1'), (1, 1, b'P1')]
+
+
+@st.composite
+def repeated_name_cases(draw):
+    recs = L._logical_file_records(draw, max_sets=0, allow_encrypted=False)
+    pool = NAME_POOL[:draw(st.integers(2, len(NAME_POOL)))]
+    seq = draw(st.lists(st.sampled_from(pool), min_size=3, max_size=8))
+    tmpl = [L._plain_attr(b'VAL', 20)]
+    objs = [{'name': [nm[0], nm[1], nm[2]], 'attrs': [L._obj_attr([b'v%d' % i])]} for i, nm in enumerate(seq)]
+    recs.append({'kind': 'set', 'lr_type': 5, 'encrypted': False,
+                 'set': {'role': 'SET', 'type': b'PARAMETER', 'name': None, 'template': tmpl, 'objects': objs}})
+    return dict(L._finish_case(draw, recs), names=[list(nm) for nm in seq])
+
+
+def check_repeated_names(case, cc):
+    from TotalDepth.RP66V1.core import LogicalFile
+    seq = [(nm[0], nm[1], bytes(nm[2])) for nm in case['names']]
+    phys = [L.physical_record(r) for r in case['records']]
+    data, _pm = L.G.encode_file(case['sul'], phys, case['layouts'], case['vr_caps'])
+    written = {}
+    for i, nm in enumerate(seq):
+        written.setdefault(nm, []).append(b'v%d' % i)
+    most = max(len(v) for v in written.values())
+    cc.nt(most >= 2 and len(written) >= 2)
+    cc.cls('object-name-written>=3-times', most >= 3)
+    cc.cls('object-name-written-twice', most == 2)
+    cc.cls('object-names-all-distinct', most == 1)
+    cc.sample({'names': [(o, c, i.decode()) for o, c, i in seq]})
+    with LogicalFile.LogicalIndex(engine.handle(data)) as index:
+        tables = [e.eflr for lf in index.logical_files for e in lf.eflrs]
+    mine = [t for t in tables if bytes(t.set.type) == b'PARAMETER']
+    if len(mine) != 1:
+        cc.dev('table==encoded', 'table-count', '%d PARAMETER tables for one set' % len(mine))
+        return
+    rows = {}
+    for o in mine[0].objects:
+        v = o.attrs[0].value
+        rows.setdefault((o.name.O, o.name.C, bytes(o.name.I)), []).append(None if v is None else [bytes(x) for x in v])
+    what = 'objects written %r' % ([(nm, b'v%d' % i) for i, nm in enumerate(seq)],)
+    for nm, vals in written.items():
+        got = rows.get(nm)
+        if got is None:
+            cc.dev('table==encoded', 'object-missing:%s' % ('written-once' if len(vals) == 1 else 'written-several-times'),
+                   '%s: no row %r in the table %r' % (what, nm, rows))
+        elif len(got) != 1:
+            cc.dev('table==encoded', 'object-name-on-several-rows', '%s: %d rows named %r' % (what, len(got), nm))
+        elif got[0] is None or len(got[0]) != 1 or got[0][0] not in vals:
+            cc.dev('table==encoded', 'object-value:%s' % ('written-once' if len(vals) == 1 else 'written-several-times'),
+                   '%s: row %r holds %r' % (what, nm, got[0]))
+    extra = [nm for nm in rows if nm not in written]
+    if extra:
+        cc.dev('table==encoded', 'object-invented', '%s: rows %r were never written' % (what, extra))
+    # ... and by name, as the table is used
+    for nm, vals in written.items():
+        try:
+            o = mine[0][RepCodeObjectName(nm)]
+        except Exception as err:  # noqa
+            cc.dev('table==encoded', 'lookup-by-name', '%s: table[%r] raises %r' % (what, nm, err))
+            continue
+        v = o.attrs[0].value
+        if v is None or [bytes(x) for x in v][0] not in vals:
+            cc.dev('table==encoded', 'lookup-by-name', '%s: table[%r] holds %r' % (what, nm, v))
+
+
+def RepCodeObjectName(nm):
+    from TotalDepth.RP66V1.core import RepCode
+    return RepCode.ObjectName(nm[0], nm[1], nm[2])
+
+
 def parts(tier):
     return [EnumPart('characteristic-subsets', run_subsets, check_subset),
+            HypPart('repeated-object-names', repeated_name_cases(), check_repeated_names, 300, 4000),
             HypPart('logical-files', L.logical_files(), check_file, 2200, 60000),
             HypPart('codes-of-the-standard-not-in-the-package', extra_code_cases(), check_extra_code, 80, 800)]
 
@@ -490,3 +567,4 @@ def parts(tier):
 def exhaustive_note(tier, total):
     return {'exhaustive': False,
             'exhaustive_subdomains': ['template x object characteristic subsets (L C R U V) of one attribute, two objects + second attribute']}
+RULE += '  Round 17: part repeated-object-names (a set that writes an object name up to several times).'
